@@ -101,6 +101,16 @@ class Ctx:
             self.violation(function, construct, where, bad_message, path)
         return cond
 
+    def shape(self, cond: bool, function: str, construct: str, where: str, ok_fact: str, unknown_message: str, path=None) -> bool:
+        """A clause that is recognised by the SHAPE of the code (a statement written the way the pinned source writes it): when the
+        shape is there the clause is discharged; when it is not, nothing is known - the code may say the same thing differently -
+        so this is an analysis error (exit 2), never a VIOLATION.  Positively wrong shapes are reported by the rule itself."""
+        if cond:
+            self.ok(where, ok_fact, function)
+        else:
+            self.errors.append(f"rule={self.current_rule} analysis error: {function} ({where}): expected shape `{construct}` not found - {unknown_message}; written differently, this clause is not decided")
+        return cond
+
     def floor(self, count: int, floor: int, what: str) -> None:
         """Instance-count floor: fewer instances than confirmed by hand => the rule no longer sees its subject."""
         if count < floor:
